@@ -7,7 +7,7 @@ import numpy as np
 
 from funtracks.exceptions import InvalidActionError
 
-from ..actions._base import ActionGroup
+from ..actions._base import ActionGroup, atomic
 from ..actions.add_delete_edge import AddEdge, DeleteEdge
 from ..actions.add_delete_node import AddNode
 from .user_delete_edge import UserDeleteEdge
@@ -26,6 +26,7 @@ class UserAddNode(ActionGroup):
         - Add edges between the earlier/later nodes and the new node
     """
 
+    @atomic
     def __init__(
         self,
         tracks: SolutionTracks,
